@@ -47,6 +47,7 @@ func (l *StartStop) Started() (done func()) {
 		close(l.startedCh)
 	}
 	l.mu.Unlock()
+	verifYield("started:sec")
 
 	var doneOnce sync.Once
 	return func() { doneOnce.Do(func() { close(doneCh) }) }
@@ -63,12 +64,15 @@ func (l *StartStop) Stop() {
 	}
 	startedCh := l.startedCh
 	l.mu.Unlock()
+	verifYield("stop:sec1")
 
 	<-startedCh
+	verifYield("stop:started")
 
 	l.mu.Lock()
 	doneCh := l.doneCh
 	l.mu.Unlock()
+	verifYield("stop:sec2")
 
 	<-doneCh
 }
